@@ -29,7 +29,7 @@ var store *db.Database
 func execDirect(sc *proc.Scenario, tag string) map[string]string {
 	rig, err := proc.New(proc.Options{Key: vlib.Key(proc.NodeKey), DB: store})
 	if err != nil {
-		r.Inconclusive("rig: " + err.Error())
+		r.InconclusiveCase("rig: " + err.Error())
 		return nil
 	}
 	defer rig.Close()
@@ -297,7 +297,7 @@ func main() {
 		}
 		rig, err := proc.New(proc.Options{Key: vlib.Key(proc.NodeKey), DB: store, Run: true})
 		if err != nil {
-			r.Inconclusive("rig: " + err.Error())
+			r.InconclusiveCase("rig: " + err.Error())
 			break
 		}
 		md := proc.NewModel()  // tracked by RunLoop: sets and local observations
@@ -340,7 +340,7 @@ func main() {
 			}
 		}
 		if err != nil {
-			r.Inconclusive("run mode: " + err.Error())
+			r.InconclusiveCase("run mode: " + err.Error())
 		} else {
 			for _, m := range sc.Msgs {
 				wantPub := ref.Published(m)
